@@ -24,7 +24,11 @@ fn ident(rng: &mut Rng) -> String {
     let mut s = String::new();
     s.push(*rng.pick(FIRST));
     for _ in 0..rng.below(7) {
-        s.push(*rng.pick(REST));
+        if rng.chance(1, 8) {
+            s.push(pgvcore::rng::unicode_letter(rng));
+        } else {
+            s.push(*rng.pick(REST));
+        }
     }
     // an identifier never contains the arrow itself
     s.replace("->", "-_")
@@ -79,15 +83,31 @@ fn gen_item(rng: &mut Rng, k: u64) -> Item {
     match k % 8 {
         0 => Item::Class { orig: qualified(rng, 4), obf: qualified(rng, 3) },
         1 => Item::Field { ty: ty(rng), orig: ident(rng), obf: ident(rng) },
-        2 => Item::HeaderKV {
-            key: rng.pick(&["compiler", "min_api", "a b c", "{\"x\"", "", "sourceFile"]).to_string(),
-            value: match rng.below(4) {
+        2 => {
+            // keys and values ending in arbitrary non-ASCII letters (every trailing UTF-8 byte)
+            let uni = |rng: &mut Rng| -> String {
+                let mut w = String::from(*rng.pick(&["", "x", "voil", "d\u{e9}j", "a b "]));
+                for _ in 0..1 + rng.below(3) {
+                    w.push(pgvcore::rng::unicode_letter(rng));
+                }
+                w
+            };
+            let key = if rng.chance(1, 3) { uni(rng) } else { rng.pick(&["compiler", "min_api", "a b c", "{\"x\"", "", "sourceFile"]).to_string() };
+            let value = match rng.below(6) {
                 0 => None,
                 1 => Some(String::new()),
+                2 | 3 => Some(uni(rng)),
                 _ => Some(rng.pick(&["R8", "1.2.3", "x: y", "a -> b:", "\"quoted\"", "Ünï"]).to_string()),
-            },
-        },
-        3 => Item::SourceFileJson { name: rng.pick(&["Main.kt", "", "a b.java", "R8$$SyntheticClass", "x:y", "Ünï.kt"]).to_string() },
+            };
+            Item::HeaderKV { key, value }
+        }
+        3 => {
+            let mut name = rng.pick(&["Main.kt", "", "a b.java", "R8$$SyntheticClass", "x:y", "Ünï.kt"]).to_string();
+            if rng.chance(1, 4) {
+                name.push(pgvcore::rng::unicode_letter(rng));
+            }
+            Item::SourceFileJson { name }
+        }
         _ => {
             let c = rng.below(48);
             Item::Method(gen_method(rng, c))
